@@ -1230,3 +1230,131 @@ Proof.
   rewrite (compile_sem cval ps0 ctx tr actuals (conj Hav (conj Hid Hnd)) W O NF).
   now rewrite Hargs, map_length.
 Qed.
+
+(* ------------------------------------------------------------------ building a primitive set *)
+From Coq Require FinFun DecimalString DecimalZ Decimal DecimalPos.
+Lemma str_app_inv_head (p a b : string) : (p ++ a)%string = (p ++ b)%string -> a = b.
+Proof. induction p as [|c p IH]; cbn; intro H; [exact H|]. injection H as H. auto. Qed.
+
+Lemma arg_name_inj prefix i j : arg_name prefix i = arg_name prefix j -> i = j.
+Proof. unfold arg_name. intro H. apply str_app_inv_head, repr_Z_inj in H. lia. Qed.
+
+Lemma repr_nat_digits i : forall_chars is_digit (repr_Z (Z.of_nat i)) = true /\ nonempty (repr_Z (Z.of_nat i)) = true.
+Proof.
+  split; [|apply repr_Z_nonempty]. unfold repr_Z.
+  destruct (Z.of_nat i) eqn:E; cbn; try reflexivity.
+  - unfold DecimalString.NilZero.string_of_uint. destruct (Pos.to_uint p) eqn:Ep; try apply uint_chars. reflexivity.
+  - lia.
+Qed.
+
+Lemma keywords_no_digit : forallb (forall_chars (fun c => negb (is_digit c))) keywords = true.
+Proof. reflexivity. Qed.
+
+Lemma arg_name_ident prefix i : is_ident prefix = true -> is_ident (arg_name prefix i) = true.
+Proof.
+  unfold is_ident, arg_name. rewrite !andb_true_iff, !negb_true_iff. intros [[Hs Hc] _].
+  destruct (repr_nat_digits i) as [Hd Hn]. repeat split.
+  - destruct prefix; [discriminate|exact Hs].
+  - rewrite forall_chars_app, Hc. cbn. eapply forall_chars_impl; [|exact Hd]. intros c ->. apply orb_true_r.
+  - destruct (existsb _ keywords) eqn:E; [|reflexivity]. exfalso.
+    apply existsb_exists in E as (kw & Hin & Heq). apply String.eqb_eq in Heq.
+    pose proof keywords_no_digit as K. rewrite forallb_forall in K. specialize (K kw Hin).
+    rewrite <- Heq, forall_chars_app in K. apply andb_true_iff in K as [_ K].
+    destruct (repr_Z (Z.of_nat i)) as [|c r]; [discriminate|]. cbn in K, Hd.
+    apply andb_true_iff in Hd as [Hc1 _]. now rewrite Hc1 in K.
+Qed.
+
+Lemma init_loop_spec prefix : forall tys i ps,
+  List.length (ps_arguments ps) = i -> ps_argvalue ps = ps_arguments ps ->
+  arg_entries ps ->
+  (forall a, In a (ps_arguments ps) -> exists j, j < i /\ a = arg_name prefix j) ->
+  let ps' := init_loop prefix i tys ps in
+  ps_arguments ps' = ps_arguments ps ++ map (arg_name prefix) (seq i (List.length tys)) /\
+  ps_argvalue ps' = ps_arguments ps' /\ arg_entries ps'.
+Proof.
+  induction tys as [|t tys IH]; intros i ps Hl Hv He Hn; cbn [init_loop List.length seq map].
+  - rewrite app_nil_r. auto.
+  - set (a := arg_name prefix i).
+    set (ps1 := mkpset (ps_arguments ps ++ [a]) (ps_argvalue ps ++ [a]) (dset a (NArg i t) (ps_mapping ps))).
+    assert (P1 : List.length (ps_arguments ps1) = S i).
+    { cbn. rewrite app_length. cbn. lia. }
+    assert (P2 : ps_argvalue ps1 = ps_arguments ps1).
+    { cbn. now rewrite Hv. }
+    assert (P3 : arg_entries ps1).
+    { intros j name Hj. cbn [ps1 ps_arguments ps_mapping] in *.
+      destruct (Nat.lt_ge_cases j i) as [L|L].
+      * rewrite nth_error_app1 in Hj by lia. destruct (He j name Hj) as (r & Hm). exists r.
+        rewrite dget_dset_other; [exact Hm|]. intro; subst name.
+        destruct (Hn a (nth_error_In _ _ Hj)) as (j' & Lj' & Ej'). apply arg_name_inj in Ej'. lia.
+      * rewrite nth_error_app2 in Hj by lia. rewrite Hl in Hj.
+        destruct (j - i) as [|d] eqn:Ed; cbn in Hj; [|destruct d; discriminate].
+        injection Hj as <-. assert (j = i) by lia. subst j. exists t. apply dget_dset_same. }
+    assert (P4 : forall x, In x (ps_arguments ps1) -> exists j, j < S i /\ x = arg_name prefix j).
+    { intros x Hx. cbn in Hx. apply in_app_iff in Hx as [Hx|[<-|[]]].
+      * destruct (Hn x Hx) as (j & Lj & Ej). exists j. split; [lia|exact Ej].
+      * exists i. split; [lia|reflexivity]. }
+    destruct (IH (S i) ps1 P1 P2 P3 P4) as (A & B & C).
+    cbn [ps1 ps_arguments] in A. split; [rewrite A, <- app_assoc; reflexivity|split; [exact B|exact C]].
+Qed.
+
+(* PrimitiveSetTyped.__init__: the fresh set is consistent (hypothesis pset_ok of compile_sem) and every
+   argument terminal is registered under its name (hypothesis arg_entries of the rename theorems) *)
+Theorem init_ok prefix tys :
+  is_ident prefix = true ->
+  let ps := pset_init prefix tys in
+  pset_ok ps /\ arg_entries ps /\
+  ps_arguments ps = map (arg_name prefix) (seq 0 (List.length tys)).
+Proof.
+  intro Hp. cbv zeta. unfold pset_init.
+  destruct (init_loop_spec prefix tys 0 (mkpset [] [] [])) as (A & B & C); try reflexivity.
+  - intros j name Hj. destruct j; discriminate.
+  - intros a [].
+  - cbn in A. repeat split; auto.
+    + rewrite A. apply forallb_forall. intros x Hx. apply in_map_iff in Hx as (j & <- & _).
+      now apply arg_name_ident.
+    + rewrite A. apply nodupb_of_NoDup.
+      apply FinFun.Injective_map_NoDup; [|apply seq_NoDup]. intros x y. apply arg_name_inj.
+Qed.
+
+(* registering: the added object is found under its key, other keys keep their entry, the argument
+   bookkeeping is untouched *)
+Definition bop_key (o : bop) : string :=
+  match o with
+  | BPrim n _ _ | BAdf n _ _ => n
+  | BConst c _ => pystr c
+  | BNamed n _ => n
+  | BEph n _ => n
+  end.
+
+Definition bop_node (o : bop) : node :=
+  match o with
+  | BPrim n a r | BAdf n a r => NPrim n a r
+  | BConst c r => NConst c r
+  | BNamed n r => NSym n r
+  | BEph n r => NClass n r
+  end.
+
+Theorem add_registers o ps names ps' names' :
+  pset_add o (ps, names) = Some (ps', names') ->
+  dget (bop_key o) (ps_mapping ps') = Some (bop_node o) /\
+  (forall k, k <> bop_key o -> dget k (ps_mapping ps') = dget k (ps_mapping ps)) /\
+  ps_arguments ps' = ps_arguments ps /\ ps_argvalue ps' = ps_argvalue ps.
+Proof.
+  destruct o; cbn [pset_add bop_key bop_node]; intro H;
+    try (destruct (existsb _ names); [discriminate|]);
+    try (destruct (dget name (ps_mapping ps)); [discriminate|]);
+    injection H as <- <-; cbn [put ps_mapping ps_arguments ps_argvalue];
+    (repeat split; [apply dget_dset_same|intros k Hk; now apply dget_dset_other]).
+Qed.
+
+(* the consistency of the set survives registrations whose key is not an argument name *)
+Theorem add_keeps_ok o ps names ps' names' :
+  pset_add o (ps, names) = Some (ps', names') -> ~ In (bop_key o) (ps_arguments ps) ->
+  pset_ok ps -> arg_entries ps -> pset_ok ps' /\ arg_entries ps'.
+Proof.
+  intros H Hk (Hv & Hi & Hn) He. destruct (add_registers _ _ _ _ _ H) as (_ & Ho & Ha & Hv').
+  split.
+  - unfold pset_ok. now rewrite Hv', Ha.
+  - intros j name Hj. rewrite Ha in Hj. destruct (He j name Hj) as (r & Hm). exists r.
+    rewrite Ho; [exact Hm|]. intro; subst. apply Hk. eapply nth_error_In; eauto.
+Qed.
